@@ -4,6 +4,8 @@ package main
 //   replay : replays TLC-enumerated histories (samples / trims / observations in every order) on the
 //            real aggregators - each history on ONE long-lived instance - and compares every public
 //            accessor with the value the specification expects, at every "o" step and at the end (B1)
+//            (split.go: the (string, delimiter) vectors of AggSplit_MC on the real stringSplitter.Splitter;
+//            table histories run on a table constructed with the vector's delimiter)
 //   trace  : drives the real aggregators with seeded random long histories (observations and trims
 //            interleaved at random on the one instance) and records reset / sample / trim / obs
 //            events for TLC (B2)
@@ -90,7 +92,11 @@ type subject struct {
 	acc   *aggregation.AccumulatingGroup
 }
 
-func newSubject(kind string, cfg *accCfg) (*subject, error) {
+// delim: the delimiter a table is constructed with ("" = the default NUL)
+func newSubject(kind string, cfg *accCfg, delim string) (*subject, error) {
+	if delim == "" {
+		delim = "\x00"
+	}
 	s := &subject{kind: kind}
 	switch kind {
 	case "ctr":
@@ -98,7 +104,7 @@ func newSubject(kind string, cfg *accCfg) (*subject, error) {
 	case "sub":
 		s.sub = aggregation.NewSubKeyCounter()
 	case "tbl":
-		s.tbl = aggregation.NewTable("\x00")
+		s.tbl = aggregation.NewTable(delim)
 	case "num":
 		s.num[0] = aggregation.NewNumericalAggregator(&aggregation.NumericalConfig{KeepValuesForAnalysis: true})
 		s.num[1] = aggregation.NewNumericalAggregator(&aggregation.NumericalConfig{KeepValuesForAnalysis: true, Reverse: true})
@@ -126,6 +132,17 @@ func newSubject(kind string, cfg *accCfg) (*subject, error) {
 }
 
 func str(a []int) string { return string(vh.FromInts(a)) }
+
+// guarded runs f; a panic of the code under test is an observation ("panic"), not the end of the driver
+func guarded(f func()) (panicked string) {
+	defer func() {
+		if r := recover(); r != nil {
+			panicked = fmt.Sprint(r)
+		}
+	}()
+	f()
+	return ""
+}
 
 func (s *subject) sample(el string) {
 	switch s.kind {
@@ -352,12 +369,18 @@ type decoded struct {
 }
 
 type vector struct {
-	Agg  string                     `json:"agg"`
-	Prof int                        `json:"prof"`
-	Base []int                      `json:"base"`
-	H    []histStep                 `json:"h"`
-	Exp  map[string]json.RawMessage `json:"exp"`
-	Cfg  map[string]json.RawMessage `json:"cfg"`
+	Agg   string                     `json:"agg"`
+	Prof  int                        `json:"prof"`
+	Base  []int                      `json:"base"`
+	Delim []int                      `json:"delim"` // the delimiter the table is constructed with
+	H     []histStep                 `json:"h"`
+	Exp   map[string]json.RawMessage `json:"exp"`
+	Cfg   map[string]json.RawMessage `json:"cfg"`
+	// agg = "split": one Splitter{S, D}; what call i must answer (split.go)
+	S     []int       `json:"s,omitempty"`
+	D     []int       `json:"d,omitempty"`
+	Done0 bool        `json:"done0,omitempty"`
+	Calls []splitCall `json:"calls,omitempty"`
 }
 
 type mismatch struct {
@@ -648,6 +671,10 @@ func replayVector(idx int, raw []byte, rs *replayState) error {
 	}
 	rs.runs++
 	rs.perAgg[v.Agg]++
+	if v.Agg == "split" {
+		replaySplit(idx, &v, rs)
+		return nil
+	}
 	if len(v.H) >= 2 {
 		rs.nontrivial++
 	}
@@ -655,7 +682,7 @@ func replayVector(idx int, raw []byte, rs *replayState) error {
 		if typed && v.Agg == "acc" {
 			continue
 		}
-		s, err := newSubject(v.Agg, cfg)
+		s, err := newSubject(v.Agg, cfg, str(v.Delim))
 		if err != nil {
 			return err
 		}
@@ -724,10 +751,15 @@ func replayOne(idx int, vp *vector, s *subject, typed bool, rs *replayState) err
 					return nil
 				}
 			default:
-				if typed {
-					s.sampleTyped(str(st.El), st.Dec)
-				} else {
-					s.sample(str(st.El))
+				if pan := guarded(func() {
+					if typed {
+						s.sampleTyped(str(st.El), st.Dec)
+					} else {
+						s.sample(str(st.El))
+					}
+				}); pan != "" {
+					add("panic", fmt.Sprintf("Sample(%q): %s", str(st.El), pan), nil)
+					return nil
 				}
 			}
 		}
@@ -761,6 +793,35 @@ func makePool(r *rand.Rand, n int) []string {
 	}
 	r.Shuffle(len(pool), func(i, j int) { pool[i], pool[j] = pool[j], pool[i] })
 	return pool[:n]
+}
+
+// makePoolD: a key pool for a table constructed with the delimiter d: besides the usual keys, keys that hold the
+// first byte(s) / the last byte(s) of d on their own, inside and at either end (a time 10:30 under "::", "a,b" under
+// ", "), but never d itself.  A key ending in d's first byte followed by d makes the leftmost occurrence straddle the
+// joint - the specification reads the TEXT, so that is a sample like any other.
+func makePoolD(r *rand.Rand, n int, d string) []string {
+	if len(d) < 2 {
+		return makePool(r, n)
+	}
+	pool := makePool(r, n)
+	var sp []string
+	for cut := 1; cut < len(d); cut++ {
+		h, t := d[:cut], d[cut:]
+		sp = append(sp, h, t, "10"+h+"30", "x"+t, h+"y", "k"+h, t+t, h+h[:1]+"z")
+	}
+	r.Shuffle(len(sp), func(i, j int) { sp[i], sp[j] = sp[j], sp[i] })
+	k := 0
+	for i := range pool {
+		if strings.Contains(pool[i], d) || (k < len(sp) && i%2 == 0) {
+			if k < len(sp) && !strings.Contains(sp[k], d) {
+				pool[i] = sp[k]
+			} else {
+				pool[i] = fmt.Sprintf("k%d", i)
+			}
+			k++
+		}
+	}
+	return pool
 }
 
 var badIncs = []string{"", "zz", "1.5", " 1", "1 ", "0x10", "1_000", "--1", "+", "-", "1e3", "١٢", "12a"}
@@ -834,20 +895,26 @@ func c07Trace(args []string) error {
 		agg           string
 		prof, n       int
 		keys, subkeys int
+		delim         string // table: the delimiter of the construction ("" = NUL)
 	}
 	// numerical profiles >= 4: large offset, small spread (values = base + delta)
 	bigBases := []string{"1700000000", "-3000000000", "10000000000", "16777216", "4294967296", "99999999", "-16777217", "1234567890"}
 	var plans []plan
 	sc := *scale
 	plans = append(plans,
-		plan{"ctr", 0, 1500 * sc, 60, 0}, plan{"ctr", 0, 400 * sc, 4, 0},
-		plan{"sub", 0, 1000 * sc, 25, 18}, plan{"sub", 0, 400 * sc, 3, 40}, plan{"sub", 0, 300 * sc, 40, 3},
-		plan{"tbl", 0, 1000 * sc, 20, 15}, plan{"tbl", 0, 500 * sc, 5, 30}, plan{"tbl", 1, 600 * sc, 12, 12},
-		plan{"num", 0, 2500 * sc, 400, 0}, plan{"num", 1, 1200 * sc, 12, 0}, plan{"num", 2, 301 * sc, 60, 0}, plan{"num", 3, 64 * sc, 1000, 0},
-		plan{"num", 4, 300 * sc, 40, 0}, plan{"num", 5, 150 * sc, 500, 0}, plan{"num", 6, 40 * sc, 4, 0}, plan{"num", 4, 7, 3, 0},
-		plan{"acc", 1, 400 * sc, 6, 0}, plan{"acc", 2, 400 * sc, 5, 4}, plan{"acc", 3, 300 * sc, 3, 0},
+		plan{"ctr", 0, 1500 * sc, 60, 0, ""}, plan{"ctr", 0, 400 * sc, 4, 0, ""},
+		plan{"sub", 0, 1000 * sc, 25, 18, ""}, plan{"sub", 0, 400 * sc, 3, 40, ""}, plan{"sub", 0, 300 * sc, 40, 3, ""},
+		plan{"tbl", 0, 1000 * sc, 20, 15, ""}, plan{"tbl", 0, 500 * sc, 5, 30, ""}, plan{"tbl", 1, 600 * sc, 12, 12, ""},
+		plan{"num", 0, 2500 * sc, 400, 0, ""}, plan{"num", 1, 1200 * sc, 12, 0, ""}, plan{"num", 2, 301 * sc, 60, 0, ""}, plan{"num", 3, 64 * sc, 1000, 0, ""},
+		plan{"num", 4, 300 * sc, 40, 0, ""}, plan{"num", 5, 150 * sc, 500, 0, ""}, plan{"num", 6, 40 * sc, 4, 0, ""}, plan{"num", 4, 7, 3, 0, ""},
+		plan{"acc", 1, 400 * sc, 6, 0, ""}, plan{"acc", 2, 400 * sc, 5, 4, ""}, plan{"acc", 3, 300 * sc, 3, 0, ""},
 		// the shared evaluation context under test (group expressions naming columns, {.}, unknown keys)
-		plan{"acc", 4, 400 * sc, 5, 0}, plan{"acc", 5, 300 * sc, 4, 4}, plan{"acc", 6, 200 * sc, 3, 0})
+		plan{"acc", 4, 400 * sc, 5, 0, ""}, plan{"acc", 5, 300 * sc, 4, 4, ""}, plan{"acc", 6, 200 * sc, 3, 0, ""},
+		// tables constructed with other delimiters (--delim): one byte, several bytes, a multi-byte character, a
+		// repeated prefix; the key pools hold the delimiter's first / last bytes on their own
+		plan{"tbl", 0, 300 * sc, 14, 10, "::"}, plan{"tbl", 1, 300 * sc, 10, 12, ", "}, plan{"tbl", 0, 250 * sc, 12, 9, "\u2192"},
+		plan{"tbl", 0, 250 * sc, 9, 9, "aab"}, plan{"tbl", 1, 200 * sc, 10, 8, " "}, plan{"tbl", 0, 150 * sc, 8, 8, " - "},
+		plan{"tbl", 0, 120 * sc, 8, 6, "\r\n"}, plan{"tbl", 0, 120 * sc, 7, 7, "abab"})
 	for pi, pl := range plans {
 		r := vh.NewRand(int64(7000 + pi))
 		tid++
@@ -858,9 +925,13 @@ func c07Trace(args []string) error {
 				return fmt.Errorf("no accumulator configuration for profile %d", pl.prof)
 			}
 		}
-		s, err := newSubject(pl.agg, cfg)
+		s, err := newSubject(pl.agg, cfg, pl.delim)
 		if err != nil {
 			return err
+		}
+		delim := "\x00"
+		if pl.delim != "" {
+			delim = pl.delim
 		}
 		base := "0"
 		if pl.agg == "num" && pl.prof >= 4 {
@@ -869,12 +940,12 @@ func c07Trace(args []string) error {
 		if s.base3, err = base3Of(base); err != nil {
 			return err
 		}
-		w.Write(M{"event": "reset", "t": tid, "agg": pl.agg, "prof": pl.prof, "base": BS(base)})
+		w.Write(M{"event": "reset", "t": tid, "agg": pl.agg, "prof": pl.prof, "base": BS(base), "delim": BS(delim)})
 		pts := obsPoints(pl.n)
-		keys := makePool(r, pl.keys)
+		keys := makePoolD(r, pl.keys, pl.delim)
 		var subkeys []string
 		if pl.subkeys > 0 {
-			subkeys = makePool(r, pl.subkeys)
+			subkeys = makePoolD(r, pl.subkeys, pl.delim)
 		}
 		// numerical: a pool of values in milli units
 		var vals []int
@@ -910,11 +981,11 @@ func c07Trace(args []string) error {
 			case "sub", "tbl":
 				el = randKey(r, keys)
 				if r.Intn(25) != 0 {
-					el += "\x00" + randKey(r, subkeys)
+					el += delim + randKey(r, subkeys)
 					if inc, has := randInc(r); has {
-						el += "\x00" + inc
+						el += delim + inc
 						if r.Intn(15) == 0 {
-							el += "\x00x"
+							el += delim + "x"
 						}
 					}
 				}
@@ -942,7 +1013,11 @@ func c07Trace(args []string) error {
 					}
 				}
 			}
-			s.sample(el)
+			if pan := guarded(func() { s.sample(el) }); pan != "" {
+				// no action of the trace specification consumes this event: the trace is rejected here
+				w.Write(M{"event": "panic", "call": "Sample", "el": BS(el), "what": pan})
+				break
+			}
 			w.Write(M{"event": "sample", "el": BS(el)})
 			// a trim at a random point; in half of the cases every accessor is read right before it, and
 			// mostly right after it as well: accessor - mutator - accessor with no sample in between
@@ -986,6 +1061,7 @@ func c07Trace(args []string) error {
 			}
 		}
 	}
+	splitTraces(w, &tid, *scale)
 	fmt.Printf("traces=%d events=%d\n", tid, w.N)
 	return nil
 }
